@@ -479,7 +479,10 @@ func genFault(seed int64, allow map[string]bool) *Scenario {
 		hp := b.plan()
 		hp.FailOrd = map[int]int{}
 		hp.FailKind = map[string]int{}
-		switch r.Intn(4) {
+		switch r.Intn(5) {
+		case 4: // an outage that hits a player's action first and one of the engine's own steps later in the same hand
+			hp.FailKind[kinds[r.Intn(4)]] = 1
+			hp.FailKind["next"] = 1 + r.Intn(2)
 		case 0: // one failing player action somewhere in the hand, possibly repeated
 			hp.FailKind[kinds[r.Intn(len(kinds))]] = 1 + r.Intn(3)
 		case 1: // several kinds
